@@ -902,3 +902,145 @@ def run(prog: Program, chk: Check) -> None:  # noqa: F811
     guard(chk, r12_8, prog, chk)
     guard(chk, r12_9, prog, chk)
     guard(chk, r12_10, prog, chk)
+    guard(chk, r12_11, prog, chk)
+
+# ------------------------------------------------------------------- R12.11
+def _null_yielding_scope_managers(prog: Program) -> Dict[str, ast.AST]:
+    """Context-manager methods of Scope whose base implementation yields nothing while an
+    override (FunctionScope) yields a value: what `with ... as x` binds may be None."""
+    out: Dict[str, ast.AST] = {}
+    base = prog.cls("Scope")
+    for name, fn in base.methods.items():
+        if not any("contextmanager" in norm(d) for d in fn.decorator_list):
+            continue
+        yields = [n for n in walk_no_nested(fn) if isinstance(n, ast.Yield)]
+        if not yields or not all(y.value is None or (isinstance(y.value, ast.Constant) and y.value.value is None) for y in yields):
+            continue
+        for sub in prog.subclasses("Scope"):
+            if sub == "Scope":
+                continue
+            ofn = prog.cls(sub).methods.get(name)
+            if ofn is not None and any(isinstance(n, ast.Yield) and n.value is not None for n in walk_no_nested(ofn)):
+                out[name] = fn
+    return out
+
+
+def _none_guarded(use: ast.AST, name: str, fn: ast.AST) -> bool:
+    """`use` is evaluated only when `name is not None`: an enclosing if / and / conditional
+    expression tests it, or an earlier `if name is None: return` of the function precedes it."""
+    pos = f"{name} is not None"
+    neg = f"{name} is None"
+    child, cur = use, parent(use)
+    while cur is not None and child is not fn:
+        if isinstance(cur, ast.If) and child in cur.body and pos in [norm(t) for t in _conjuncts(cur.test)]:
+            return True
+        if isinstance(cur, ast.If) and child in cur.orelse and norm(cur.test) == neg:
+            return True
+        if isinstance(cur, ast.IfExp) and child is cur.body and pos in [norm(t) for t in _conjuncts(cur.test)]:
+            return True
+        if isinstance(cur, ast.BoolOp) and isinstance(cur.op, ast.And):
+            idx = cur.values.index(child) if child in cur.values else -1
+            if idx > 0 and any(norm(v) == pos for v in cur.values[:idx]):
+                return True
+        child, cur = cur, parent(cur)
+    body = getattr(fn, "body", [])
+    for st in body:
+        if getattr(st, "lineno", 0) >= getattr(use, "lineno", 0):
+            break
+        if isinstance(st, ast.If) and norm(st.test) == neg and st.body and isinstance(st.body[-1], (ast.Return, ast.Raise)):
+            return True
+    return False
+
+
+def _conjuncts(test: ast.AST) -> List[ast.AST]:
+    if isinstance(test, ast.BoolOp) and isinstance(test.op, ast.And):
+        return [c for v in test.values for c in _conjuncts(v)]
+    return [test]
+
+
+def _deref_uses(fn: ast.AST, name: str, after: int) -> Tuple[List[ast.AST], List[Tuple[ast.Call, int]]]:
+    """(uses of `name` that need an object - iteration, subscript, attribute, `in` - , calls it is handed to)."""
+    derefs: List[ast.AST] = []
+    passed: List[Tuple[ast.Call, int]] = []
+    for n in walk_no_nested(fn):
+        if not (isinstance(n, ast.Name) and n.id == name and isinstance(n.ctx, ast.Load) and n.lineno >= after):
+            continue
+        p = parent(n)
+        if isinstance(p, (ast.For, ast.AsyncFor)) and p.iter is n:
+            derefs.append(n)
+        elif isinstance(p, ast.comprehension) and p.iter is n:
+            derefs.append(n)
+        elif isinstance(p, ast.Subscript) and p.value is n:
+            derefs.append(n)
+        elif isinstance(p, ast.Attribute) and p.value is n:
+            derefs.append(n)
+        elif isinstance(p, ast.Compare) and n in p.comparators and any(isinstance(o, (ast.In, ast.NotIn)) for o in p.ops):
+            derefs.append(n)
+        elif isinstance(p, ast.Starred):
+            derefs.append(n)
+        elif isinstance(p, ast.Call) and n in p.args:
+            passed.append((p, p.args.index(n)))
+        elif isinstance(p, ast.Call) and p.func is n:
+            derefs.append(n)
+    return derefs, passed
+
+
+def r12_11(prog: Program, chk: Check) -> None:
+    chk.rule(
+        "R12.11",
+        "what a scope context manager binds may be None: `Scope.subscope` / `Scope.loop_scope` (module and class scopes) yield nothing while the FunctionScope overrides yield "
+        "a dict / a list, so every `with self.scopes.<manager>() as x` hands out an optional value - each use of x that needs an object (iteration, comprehension, subscript, "
+        "attribute, `in`, unpacking) is evaluated only under `x is not None` (enclosing if / and / conditional expression, or an earlier `if x is None: return`), in the "
+        "function itself and in the methods x is passed to; otherwise a loop at module or class level raises TypeError (internal_error)",
+        floor=2,
+    )
+    managers = _null_yielding_scope_managers(prog)
+    if not managers:
+        raise AnchorError("no scope context manager with a value-less base implementation found")
+    chk.analysed["optional_scope_managers"] = sorted(managers)
+    sinks = {"combine_subscopes"}  # Scope.combine_subscopes ignores its argument; the FunctionScope one is only reached with real subscopes
+    n_bind = 0
+    seen_callee: Set[Tuple[str, str]] = set()
+
+    def check(m: str, q: str, fn: ast.AST, name: str, after: int, origin: str, depth: int) -> None:
+        derefs, passed = _deref_uses(fn, name, after)
+        for use in derefs:
+            chk.ob(
+                "R12.11",
+                f"{m}::{q}::{name}::{norm(parent(use))[:50]}",
+                _none_guarded(use, name, fn),
+                prog.site(m, use),
+                f"`{norm(parent(use))[:70]}` needs `{name}` to be an object, but {origin} binds None outside function scopes: TypeError -> internal_error for a module- or class-level statement",
+            )
+        for call, idx in passed:
+            callee = last_attr(call.func) if isinstance(call.func, ast.Attribute) else None
+            if callee in sinks or callee is None:
+                continue
+            if _none_guarded(call, name, fn):
+                continue
+            if isinstance(call.func, ast.Attribute) and isinstance(call.func.value, ast.Name) and call.func.value.id == "self" and depth < 3:
+                cls = q.split(".")[0]
+                found = prog.find_method(cls, callee)
+                if found is None:
+                    continue
+                cfn = found[1]
+                params = [a.arg for a in cfn.args.args][1:]
+                if idx < len(params) and (found[0].name, callee, params[idx]) not in seen_callee:
+                    seen_callee.add((found[0].name, callee, params[idx]))  # type: ignore[arg-type]
+                    check(prog.module_of_class(found[0].name) if hasattr(prog, "module_of_class") else m, f"{found[0].name}.{callee}", cfn, params[idx], 0, origin, depth + 1)
+
+    for m, q, fn in prog.iter_functions():
+        for node in walk_no_nested(fn):
+            if not isinstance(node, (ast.With, ast.AsyncWith)):
+                continue
+            for item in node.items:
+                ce = item.context_expr
+                if not (isinstance(ce, ast.Call) and isinstance(ce.func, ast.Attribute) and ce.func.attr in managers and isinstance(item.optional_vars, ast.Name)):
+                    continue
+                if isinstance(ce.func.value, ast.Name) and ce.func.value.id == "self" and q.split(".")[0] in prog.subclasses("Scope") and q.split(".")[0] != "Scope":
+                    continue  # inside FunctionScope itself the override is the one that runs
+                n_bind += 1
+                check(m, q, fn, item.optional_vars.id, node.lineno, f"`with {norm(ce)} as {item.optional_vars.id}`", 0)
+    chk.analysed["optional_scope_bindings"] = n_bind
+    if n_bind < 6:
+        raise AnchorError(f"only {n_bind} `with ... as x` bindings of optional scope managers found (expected the loop / if / try visitors)")
